@@ -16,6 +16,7 @@ THEOREMS = [
     ("EG.props.C11", "C11_update_never_unavailable"),
     ("EG.props.C11", "C11_hot_update_no_restart"),
     ("EG.props.C11", "C11_registry_bad_entry_frame"),
+    ("EG.props.C11", "C11_update_storm_last_wins"),
     ("EG.props.C11", "C11_checker_sound_pipe"),
     ("EG.props.C11", "C11_checker_sound_conc"),
     ("EG.props.C11", "C11_checker_sound_tc"),
@@ -31,13 +32,14 @@ HARNESSES = [
          run="TestVerifC11Registry", groups=["reg"], timeout=300, share=0.08),
     dict(name="tc", pkg="pkg/object/trafficcontroller", files=["harness/trafficcontroller/zz_verif_c11_test.go"],
          run="TestVerifC11TC", groups=["tc", "tcreal"], timeout=300, share=0.2),
-    dict(name="mux", pkg="pkg/object/httpserver", files=["harness/httpserver/zz_verif_c11_test.go", "harness/httpserver/zz_verif_c11_cert_test.go"],
-         run="TestVerifC11Mux", groups=["sched", "conc", "restart"], timeout=900, share=0.27, race=True),
+    dict(name="mux", pkg="pkg/object/httpserver", files=["harness/httpserver/zz_verif_c11_test.go", "harness/httpserver/zz_verif_c11_cert_test.go",
+                "harness/httpserver/zz_verif_c11_storm_test.go"],
+         run="TestVerifC11Mux", groups=["sched", "conc", "restart", "storm"], timeout=900, share=0.27, race=True),
 ]
 GROUPS = {"rlf": "(check_rlf pinned)", "inh": "(check_inh pinned)", "pipe": "(check_pipe pinned)",
-          "tc": "(check_tc pinned)", "sched": "(check_sched pinned)", "conc": "(check_conc pinned)", "restart": "(check_restart pinned)", "tcreal": "(check_tcreal pinned)", "reg": "(check_reg pinned)"}
+          "tc": "(check_tc pinned)", "sched": "(check_sched pinned)", "conc": "(check_conc pinned)", "restart": "(check_restart pinned)", "tcreal": "(check_tcreal pinned)", "reg": "(check_reg pinned)", "storm": "(check_storm pinned)"}
 EXPLAIN = {"rlf": "explain_rlf pinned", "inh": "explain_inh", "pipe": "explain_pipe pinned",
-           "tc": "explain_tc", "sched": "explain_sched", "conc": "explain_conc", "restart": "explain_restart", "tcreal": "explain_tcreal", "reg": "explain_reg"}
+           "tc": "explain_tc", "sched": "explain_sched", "conc": "explain_conc", "restart": "explain_restart", "tcreal": "explain_tcreal", "reg": "explain_reg", "storm": "explain_storm"}
 CASES = {"quick": 900, "thorough": 6000}
 RULE = ("cases: rlf = RateLimiter filter Init/Inherit/Handle histories incl. requests on superseded generations; "
         "inh = the same for 13 further filter kinds with a never-inherited twin; pipe = Pipeline.Init/Inherit/Handle with "
@@ -315,6 +317,11 @@ def _enc_reg(i, o):
     return Rec(rg_rounds=L(out), rg_bad=B(bad))
 
 
+def _enc_storm(i, o):
+    return Rec(sm_k=Z(i["k"]), sm_seq=L([Z(x) for x in o.get("seq") or []]), sm_final=Z(o.get("final", -1)),
+               sm_bad=B(bool(o.get("skipped"))))
+
+
 def encode(c):
     i, o, g = c["in"], c["obs"], c["grp"]
     if g == "rlf":
@@ -335,6 +342,8 @@ def encode(c):
         return _enc_tcreal(i, o)
     if g == "reg":
         return _enc_reg(i, o)
+    if g == "storm":
+        return _enc_storm(i, o)
     raise ValueError(g)
 
 
